@@ -32,3 +32,24 @@ package enum
 //@   ensures normal && result != nil ==> (forall k enumItemValue :: dom(s.uniqueValues, k) <==> old(dom(s.uniqueValues, k)))
 //@   ensures normal && result == nil ==> len(s.uniqueValues) == old(len(s.uniqueValues)) + 1
 //@   ensures normal && result == nil ==> (forall k enumItemValue :: old(dom(s.uniqueValues, k)) ==> dom(s.uniqueValues, k))
+
+// C06/C14: which pairs close ON their own last byte (brackets, */) and which
+// close on the byte BEFORE the one that ended them (literals, items, annotation texts)
+//@ func isNonScalarPair(pairType, lexType)
+//@   props C06 C14 C18
+//@   pure
+//@   ensures result == ((pairType == lexeme.ArrayBegin && lexType == lexeme.ArrayEnd) || (pairType == lexeme.MultiLineAnnotationBegin && lexType == lexeme.MultiLineAnnotationEnd))
+//@ func isScalarPair(pairType, lexType)
+//@   props C06 C14 C18
+//@   pure
+//@   ensures result == ((pairType == lexeme.LiteralBegin && lexType == lexeme.LiteralEnd) || (pairType == lexeme.ArrayItemBegin && lexType == lexeme.ArrayItemEnd)
+//@            || (pairType == lexeme.MultiLineAnnotationTextBegin && lexType == lexeme.MultiLineAnnotationTextEnd) || (pairType == lexeme.InlineAnnotationTextBegin && lexType == lexeme.InlineAnnotationTextEnd)
+//@            || (pairType == lexeme.InlineAnnotationBegin && lexType == lexeme.InlineAnnotationEnd) || (pairType == lexeme.MixedValueBegin && lexType == lexeme.MixedValueEnd))
+
+// C05/C18: an enum rule accepts exactly the JSON string escapes
+//@ func (*scanner).stateInStringEsc(c)
+//@   props C05 C06 C18
+//@   requires s != nil && s.returnToStep != nil && s.file != nil && 1 <= s.index && s.index <= len(s.data)
+//@   nopanic
+//@   modifies s.step, s.returnToStep.vals, s.returnToStep.vals[*]
+//@   ensures (result1 == nil) == (isSimpleEscape(c) || c == 'u')
